@@ -78,7 +78,8 @@ class Variable(FortranObj):
             return
         if self.parent is not None:
             link_obj = find_in_scope(self.parent, self.link_name, obj_tree)
-            if link_obj is not None:
+            # Self-referential links (p => p) must not be followed
+            if link_obj is not None and not self.is_linked_from(link_obj):
                 self.link_obj = link_obj
 
     def require_link(self):
